@@ -14,16 +14,16 @@ mirrors pywbem/_tupleparse.py: parse_cim, parse_message, parse_simplereq, parse_
   parse_iparamvalue, parse_simplersp, parse_imethodresponse, parse_error, parse_ireturnvalue,
   parse_paramvalue, parse_value_object, parse_value_objectwithpath, parse_objectpath, one_child,
   optional_child, list_of_same
-mirrors pywbem/_tupletree.py: CIMContentHandler (wireTree: adjacent character data is one node, no
-  empty text nodes)
+wire at tree level: `Pywbem.Model.XmlParse.wireTree` (shared; proved equal to parse∘serialise in XmlSyntax)
 mirrors /verif/harness/facade.py (the DSP0200 server side used by the correspondence run): _typed,
   FacadeAdapter._obj_xml, _imethod_response
 -/
 import Pywbem.Model.CimXmlDec
+import Pywbem.Model.XmlParse
 import Pywbem.Generated.OpsSig
 
 namespace Pywbem.Model.Ops
-open Pywbem.Model Pywbem.Model.XmlText Pywbem.Proto Pywbem.Generated.OpsSig
+open Pywbem.Model Pywbem.Model.XmlText Pywbem.Model.XmlParse Pywbem.Proto Pywbem.Generated.OpsSig
 
 /-! ### values -/
 
@@ -296,41 +296,12 @@ def requestXml (C : Codec) (op ns : Str) (ps : Params) : Xml :=
   messageXml (E "SIMPLEREQ" [] [E "IMETHODCALL" [("NAME".toList, op)] (localNsPath ns :: iparamsXml C ps)])
     "1001".toList
 
-/-! ### the wire at tree level -/
+/-! ### the wire at tree level
 
-def joinText (s : Str) : List Xml → List Xml
-  | .text s2 :: r => .text (s ++ s2) :: r
-  | r => .text s :: r
-
-def wireAttrs : List (Str × Str) → Option (List (Str × Str))
-  | [] => some []
-  | (k, v) :: rest => do
-    let v' ← wireAttr v
-    let r ← wireAttrs rest
-    pure ((k, v') :: r)
-
-mutual
-/-- what `xml_to_tupletree_sax` makes of `toxml()` of a tree: attribute values and character data pass
-    the text-level wire; empty character data leaves no node; adjacent character data is one node
-    (the XmlSyntax hypothesis of DESIGN.md §7 at element level; compared with expat in the
-    correspondence run) -/
-def wireTree : Xml → Option Xml
-  | .text s => (wireText s).map .text
-  | .elem n as ks => do
-    let as' ← wireAttrs as
-    let ks' ← wireKids ks
-    pure (.elem n as' ks')
-def wireKids : List Xml → Option (List Xml)
-  | [] => some []
-  | .text s :: ks => do
-    let s' ← wireText s
-    let r ← wireKids ks
-    pure (if s' = [] then r else joinText s' r)
-  | .elem n as kk :: ks => do
-    let t ← wireTree (.elem n as kk)
-    let r ← wireKids ks
-    pure (t :: r)
-end
+`wireTree` (Pywbem/Model/XmlParse.lean): what `xml_to_tupletree_sax` makes of `toxml()` of a tree — attribute
+values and character data pass the text-level wire, empty character data leaves no node, adjacent character
+data is one node.  Proofs/Props/XmlSyntax.lean proves `par (Xml.ser t) = wireTree t` for the concrete parser
+model `par`, so the exchange below is the exchange over the serialised documents. -/
 
 /-! ### server: request unmarshalling -/
 
